@@ -334,6 +334,7 @@ func (s *KeyStore) verifyKeyRing(data []byte, path string) (*asn1.KeyRing, []asn
 	ringData, err := asn1.UnmarshalKeyRing(verified.Payload.Data.FullBytes)
 	if err != nil {
 		log.WithError(err).Debug("failed to unmarshal key ring data")
+		return nil, nil, err
 	}
 	log.WithField("last-modified", verified.Payload.LastModified).
 		Trace("loaded key ring")
